@@ -630,10 +630,8 @@ Definition frame_out (f : Frame) : list Z :=
 Definition do_transmit (maxb : Z) (s : State) : R :=
   let fuel := (Z.to_nat (Z.min maxb 65536) + length s.(pendq) + 1)%nat in
   let '(s', buf, fs, okf) := tx_loop fuel maxb 0 s [] in
-  if okf then
-    ok (set_log (s'.(log) ++ map (@Some Frame) fs) s')
-       ([Z.of_nat (length fs); buf] ++ flat_map frame_out fs)
-  else ok s' [-3].
+  ok (set_log (s'.(log) ++ map (@Some Frame) fs) s')
+     (if okf then [Z.of_nat (length fs); buf] ++ flat_map frame_out fs else [-3]).
 
 (** [poll]: connection-blocked streams first (while credit is available), then queued events. *)
 Fixpoint cb_loop (st : list Z) (s : State) : State * option Z :=
@@ -708,7 +706,51 @@ Definition reject_with (fixed : bool) (s : State) : option State :=
       end
   end.
 
+(** [retransmit_all_for_0rtt] (a Retry arrived): the streams [StreamId::new(Side::Client, dir, i)],
+    [i < next[dir]], in ascending order.  A stream on which nothing was sent is skipped; a stream
+    finished without data gets [fin_pending] again ([fixed = true]; the code as found skipped it);
+    everything else is marked unsent.  [None] = [debug_assert_eq!(offset, unacked_len)]. *)
+Definition retry_stream (fixed : bool) (id : Z) (s : State) : option State :=
+  match lookup id s.(send) with
+  | Some (Some x) =>
+      let was := is_pending x in
+      let quiet := (x.(s_ulen) =? 0) && negb x.(s_fin_pending) in
+      let finished := (x.(s_state) =? 1) || (x.(s_state) =? 2) in
+      if quiet && negb (fixed && finished) then Some s
+      else
+        let x1 := if quiet then set_s_fin_pending true x else x in
+        let was := if fixed then was else is_pending x1 in
+        if x1.(s_offset) =? x1.(s_ulen) then
+          let s := if was then s else push_pending id s in
+          Some (put id (set_s_unsent 0 x1) s)
+        else None
+  | _ => Some s
+  end.
+
+Fixpoint retry_dir (fixed : bool) (d : Z) (n : nat) (s : State) : option State :=
+  match n with
+  | O => Some s
+  | S k =>
+      match retry_dir fixed d k s with
+      | Some s' => retry_stream fixed (sid 0 d (Z.of_nat k)) s'
+      | None => None
+      end
+  end.
+
+Definition retry_with (fixed : bool) (s : State) : option State :=
+  match retry_dir fixed 0 (Z.to_nat s.(next_bi)) s with
+  | Some s1 =>
+      match retry_dir fixed 1 (Z.to_nat s1.(next_uni)) s1 with
+      | Some s2 => Some (set_log (map (fun _ => None) s2.(log)) s2)
+      | None => None
+      end
+  | None => None
+  end.
+
 (** The model follows the code of the working tree (see Props/C17.v for the history). *)
+Definition RETRY_FIXED : bool := true.
+Definition do_retry (s : State) : option State := retry_with RETRY_FIXED s.
+
 Definition CODE_FIXED : bool := true.
 Definition do_reject (s : State) : option State := reject_with CODE_FIXED s.
 
@@ -744,6 +786,7 @@ Definition apply (op : list Z) (s : State) : R :=
   | 17 => do_reset_acked (arg op 1) s
   | 18 => do_accept (arg op 1) s
   | 19 => match observe s with Some o => ok s o | None => None end
+  | 21 => match do_retry s with Some s' => ok s' [0] | None => None end
   | _ => ok s [-1]
   end.
 
@@ -791,7 +834,8 @@ Definition run (i : ops) : outs :=
 
     The ledger applies to DISCIPLINED cases ([wf_static], a syntactic check of the op list that
     mirrors how [Connection] drives [StreamsState]):
-      [new] ; [set_params p0] ; early ops (no peer frames, no acknowledgements, local streams only) ;
+      [new] ; [set_params p0] ; early ops (no peer frames, no acknowledgements, no losses, local
+      streams only; a client may see Retries: [retransmit_all_for_0rtt]) ;
       optionally [set_params p1] with [p1 >= p0] (0-RTT accepted) or [zero_rtt_rejected ; set_params p1] ;
       then any mix of application ops, credit frames, transmissions, acknowledgements and losses,
       where the application uses a remote bidirectional stream only after [accept] returned it.
@@ -815,8 +859,9 @@ Fixpoint wf_scan (side mrb : Z) (p0 : list Z) (ph nr rep : Z) (i : ops) : bool :
       let app_ok (rep : Z) :=
         negb (id_remote_bi side id && (id_index id <? mrb) && (rep <=? id_index id)) in
       if ph =? 1 then (c =? 1) && pvalid op && wf_scan side mrb op 2 nr rep t
-      else if (c =? 2) || (c =? 9) || (c =? 11) || (c =? 13) || (c =? 15) || (c =? 19) then
+      else if (c =? 2) || (c =? 9) || (c =? 13) || (c =? 15) || (c =? 19) then
         wf_scan side mrb p0 ph nr rep t
+      else if c =? 21 then (ph =? 0) && (side =? 0) && wf_scan side mrb p0 ph nr rep t
       else if (c =? 3) || (c =? 4) || (c =? 5) then
         if id_local side id then (0 <=? id) && wf_scan side mrb p0 ph nr rep t
         else (0 <=? id) && app_ok rep && wf_scan side mrb p0 2 nr rep t
@@ -830,7 +875,7 @@ Fixpoint wf_scan (side mrb : Z) (p0 : list Z) (ph nr rep : Z) (i : ops) : bool :
         let rep' := if (norm_dir id =? 0) && (rep <? nr) then rep + 1 else rep in
         wf_scan side mrb p0 2 nr rep' t
       else if c =? 16 then (0 <=? id) && is_varint (arg op 2) && wf_scan side mrb p0 2 nr rep t
-      else if (c =? 8) || (c =? 10) || (c =? 17) then (0 <=? id) && wf_scan side mrb p0 2 nr rep t
+      else if (c =? 8) || (c =? 10) || (c =? 11) || (c =? 17) then (0 <=? id) && wf_scan side mrb p0 2 nr rep t
       else false
   end.
 
@@ -1024,6 +1069,7 @@ Definition led_step (op o : list Z) (l : Led) : option Led :=
   else if c =? 14 then
     Some (mkLed l.(l_side) l.(l_mrb) l.(l_sw) [1; 0; 0; 0; 0; 0; 0] 0 0 0 0 0 0 0 l.(l_rep) []
                 (map (fun _ => None) l.(l_flog)) false)
+  else if c =? 21 then Some (led_with_flog (map (fun _ => None) l.(l_flog)) l)
   else if c =? 16 then
     (* STOP_SENDING for a stream that does not exist (yet) is ignored by the implementation *)
     if (r0 =? 0) && (led_known l id || ((0 <=? id) && id_remote_bi l.(l_side) id && (id_index id <? l.(l_mrb)))) then
@@ -1059,12 +1105,111 @@ Fixpoint led_run (i : ops) (o : outs) (l : Led) : bool :=
   | _, _ => false
   end.
 
+(** *** The FIN ledger: a finished stream whose FIN is neither acknowledged nor in flight is
+    still scheduled.  From the ops and the implementation's observations only: streams finished
+    ([finish] answered Ok), reset, FIN frames reported sent / acknowledged / lost / discarded (by a
+    Retry or a rejection).  At every full projection (op 19) each finished, not reset stream that
+    is still in the map and whose FIN is not acknowledged and not in flight must have
+    [fin_pending] or unsent data AND be in the pending queue.  (This is what makes a Retry resend
+    the lone FIN of an early stream finished without data.) *)
+Record FinLed := mkFinLed {
+  f_fin : list Z; f_dead : list Z; f_acked : list Z; f_log : list (option (Z * bool)) }.
+
+Definition zmem (x : Z) (l : list Z) : bool := existsb (Z.eqb x) l.
+
+Fixpoint frames_fin (l : list Z) : list (option (Z * bool)) :=
+  match l with
+  | id :: _ :: _ :: fin :: t => Some (id, negb (fin =? 0)) :: frames_fin t
+  | _ => []
+  end.
+
+Fixpoint finlog_take (k : nat) (l : list (option (Z * bool))) : option ((Z * bool) * list (option (Z * bool))) :=
+  match l, k with
+  | [], _ => None
+  | Some f :: t, O => Some (f, None :: t)
+  | None :: _, O => None
+  | e :: t, S k' =>
+      match finlog_take k' t with
+      | Some (f, t') => Some (f, e :: t')
+      | None => None
+      end
+  end.
+
+Definition fin_in_flight (id : Z) (l : list (option (Z * bool))) : bool :=
+  existsb (fun e => match e with Some (i, true) => i =? id | _ => false end) l.
+
+Fixpoint chunk11 (n : nat) (l : list Z) : list (list Z) :=
+  match n with
+  | O => []
+  | S k => firstn 11 l :: chunk11 k (skipn 11 l)
+  end.
+
+(** Parse the full projection: (pending ids, stream rows). *)
+Definition obs_parse (o : list Z) : list Z * list (list Z) :=
+  let r := skipn 12 o in
+  let ncb := Z.to_nat (nth 0 r 0) in
+  let r := skipn (S ncb) r in
+  let np := Z.to_nat (nth 0 r 0) in
+  let pend := firstn np (skipn 1 r) in
+  let r := skipn (S np) r in
+  let ns := Z.to_nat (nth 0 r 0) in
+  (pend, chunk11 ns (skipn 1 r)).
+
+Definition fin_obs_ok (o : list Z) (f : FinLed) : bool :=
+  let '(pend, rows) := obs_parse o in
+  forallb (fun id =>
+    if zmem id f.(f_dead) || zmem id f.(f_acked) || fin_in_flight id f.(f_log) then true
+    else
+      forallb (fun row =>
+        if (nth 0 row (-1) =? id) && (nth 1 row 0 =? 1) && negb (nth 4 row 0 =? 3) then
+          ((nth 5 row 0 =? 1) || (nth 9 row 0 =? 1)) && zmem id pend
+        else true) rows) f.(f_fin).
+
+Definition fin_step (op o : list Z) (f : FinLed) : option FinLed :=
+  let c := arg op 0 in
+  let id := arg op 1 in
+  let r0 := arg o 0 in
+  if c =? 0 then Some (mkFinLed [] [] [] [])
+  else if c =? 4 then
+    Some (if r0 =? 0 then mkFinLed (id :: f.(f_fin)) f.(f_dead) f.(f_acked) f.(f_log) else f)
+  else if c =? 5 then
+    Some (if r0 =? 0 then mkFinLed f.(f_fin) (id :: f.(f_dead)) f.(f_acked) f.(f_log) else f)
+  else if c =? 9 then
+    if r0 <? 0 then Some f
+    else Some (mkFinLed f.(f_fin) f.(f_dead) f.(f_acked)
+                        (f.(f_log) ++ frames_fin (skipn 2 (firstn (2 + 4 * Z.to_nat r0) o))))
+  else if (c =? 10) || (c =? 11) then
+    if r0 =? 0 then
+      match (if id <? 0 then None else finlog_take (Z.to_nat id) f.(f_log)) with
+      | None => None
+      | Some ((fid, fin), fl) =>
+          Some (mkFinLed f.(f_fin) f.(f_dead)
+                         (if (c =? 10) && fin then fid :: f.(f_acked) else f.(f_acked)) fl)
+      end
+    else Some f
+  else if c =? 14 then Some (mkFinLed [] [] [] (map (fun _ => None) f.(f_log)))
+  else if c =? 21 then Some (mkFinLed f.(f_fin) f.(f_dead) f.(f_acked) (map (fun _ => None) f.(f_log)))
+  else if c =? 19 then (if fin_obs_ok o f then Some f else None)
+  else Some f.
+
+Fixpoint fin_run (i : ops) (o : outs) (f : FinLed) : bool :=
+  match i, o with
+  | [], [] => true
+  | op :: i', ob :: o' =>
+      match fin_step op ob f with
+      | None => false
+      | Some f' => fin_run i' o' f'
+      end
+  | _, _ => false
+  end.
+
 Definition is_panic (o : outs) : bool :=
   match o with [[x]] => x =? -999 | _ => false end.
 
 Definition oracle (i : ops) (o : outs) : bool :=
   if wf_static i then
-    if is_panic o then false else led_run i o (led_init 0 0 (2 ^ 20))
+    if is_panic o then false
+    else led_run i o (led_init 0 0 (2 ^ 20)) && fin_run i o (mkFinLed [] [] [] [])
   else true.
 
 (** Development aid: the trivially true oracle (used only when comparing [run] by hand). *)
